@@ -269,43 +269,42 @@ def rule_r4(ctx, F, rule='C04-R4'):
             ims = [x for x in manual_impls(F, HASH) if x[1]['path'] == tyname]
             if not ims:
                 raise AnchorMissing('manual Hash impl for %s' % tyname)
-            body = impl_method(F, ims[0][0], 'hash')
-            bodies = bodies_with_closures(F, body)
+            body0 = impl_method(F, ims[0][0], 'hash')
+            ctx.touched(body0)
+            # loop normal form (A12): the thread-local scope, the per-element closure and any helper a
+            # refactoring introduced are one control-flow graph
+            b = F.norm(body0)
+            from taint import origins
             # (a) every Hasher::finish receiver originates from stable::hasher()
-            fin = [(b, c) for b in bodies for c in b.calls if c.is_('Hasher::finish')]
+            fin = [c for c in b.calls if c.is_('Hasher::finish')]
             if not fin:
                 raise AnchorMissing('%s::hash: no per-element Hasher::finish' % tyname)
-            for b, c in fin:
-                v = b.val(c.args[0])
-                src = None
-                if v.kind == 'call':
-                    src = b.call_at(v.key)
-                elif v.kind == 'local':
-                    ds = [d for d in b.defs.get(v.key, []) if d[1] == 'call']
-                    if len(ds) == 1:
-                        src = b.call_at(ds[0][0])
-                ctx.check(src is not None and src.is_('stable::hasher'), rule, 'element-hasher', b,
+            for c in fin:
+                org = origins(b, c.args[0])
+                ok = bool(org) and all(not isinstance(o, (str, tuple)) and o.is_('stable::hasher') for o in org)
+                ctx.check(ok, rule, 'element-hasher', body0,
                           good='per-element hasher is stable::hasher()',
                           bad='%s::hash: per-element hasher is not stable::hasher() (got %s): equal '
-                              'sets may hash differently across runs/instances' % (tyname, src),
+                              'sets may hash differently across runs/instances' % (tyname, sorted(repr(o) for o in org)),
                           span=c.span)
-            banned = [(b, c) for b in bodies for c in b.calls
+            banned = [c for c in b.calls
                       if c.is_('RandomState::new', 'DefaultHasher::new', 'BuildHasher::build_hasher',
                                'BuildHasher::hash_one')]
-            ctx.check(not banned, rule, 'no-random-state', body,
+            ctx.check(not banned, rule, 'no-random-state', body0,
                       good='no randomly seeded hasher in %s::hash' % tyname,
                       bad='%s::hash uses a randomly seeded / instance hasher: %s' % (tyname, banned))
             # (b) sort dominates each outer write
-            for b in bodies:
-                writes = [c for c in b.calls if c.is_('Hasher::write_u64', 'Hasher::write')]
-                sorts = [c for c in b.calls if re.search(r'::sort(_unstable)?(_by|_by_key|_by_cached_key)?$', c.short)]
-                for w in writes:
-                    ok = any(b.dominates(s_.bb, w.bb) and s_.bb != w.bb for s_ in sorts)
-                    ctx.check(ok, rule, 'sort-before-feed', b,
-                              good='a sort of the pre-hashed buffer dominates the feed loop',
-                              bad='%s::hash feeds element hashes in iteration order (no sort '
-                                  'dominates the write at %s): insertion order / capacity changes '
-                                  'the hash' % (tyname, w.span), span=w.span)
+            writes = [c for c in b.calls if c.is_('Hasher::write_u64', 'Hasher::write')]
+            sorts = [c for c in b.calls if re.search(r'::sort(_unstable)?(_by|_by_key|_by_cached_key)?$', c.short)]
+            if not writes:
+                raise AnchorMissing('%s::hash: no write of the element hashes to the outer hasher' % tyname)
+            for w in writes:
+                ok = any(b.dominates(s_.bb, w.bb) and s_.bb != w.bb for s_ in sorts)
+                ctx.check(ok, rule, 'sort-before-feed', body0,
+                          good='a sort of the pre-hashed buffer dominates the feed loop',
+                          bad='%s::hash feeds element hashes in iteration order (no sort '
+                              'dominates the write at %s): insertion order / capacity changes '
+                              'the hash' % (tyname, w.span), span=w.span)
     with ctx.rule(rule, 'fingerprint'):
         fp = F.body('fingerprint', 'fingerprint()')
         srcs = [c for c in fp.calls if c.is_('stable::hasher')]
@@ -339,45 +338,54 @@ def rule_r6(ctx, F, rule='C04-R6'):
             ims = [x for x in manual_impls(F, HASH) if x[1]['path'] == tyname]
             if not ims:
                 raise AnchorMissing('manual Hash impl for %s' % tyname)
-            body = impl_method(F, ims[0][0], 'hash')
-            els = [b for b in bodies_with_closures(F, body) if b.calls_to('Hasher::finish')]
-            if len(els) != 1:
-                raise AnchorMissing('%s::hash: per-element closure' % tyname)
-            el = els[0]
-            ctx.touched(el)
-            fin = el.calls_to('Hasher::finish')[0]
-            hasher = V('call', el.calls_to('stable::hasher')[0].bb) if el.calls_to('stable::hasher') else None
-            fed_vals = []
+            body0 = impl_method(F, ims[0][0], 'hash')
+            ctx.touched(body0)
+            el = F.norm(body0)
+            from taint import origins
+            fins = el.calls_to('Hasher::finish')
+            if len(fins) != 1:
+                raise AnchorMissing('%s::hash: per-element hashing (one Hasher::finish expected, found %d)' %
+                                    (tyname, len(fins)))
+            fin = fins[0]
+            heads = [c for c in el.calls_to('Iterator::next') if el.in_cycle(c.bb) and el.dominates(c.bb, fin.bb)]
+            if not heads:
+                raise AnchorMissing('%s::hash: loop over the elements' % tyname)
+            head = max(heads, key=lambda c: len([1 for x in heads if el.dominates(x.bb, c.bb)]))
+            hsrc = origins(el, fin.args[0])
+            fed_projs = []
             for c in el.calls_to('Hash::hash'):
-                hv = el.val(c.args[1])
-                hroot = V(hv.kind, hv.key)
-                if hasher is not None and not (hroot == hasher or (hv.kind == 'local')):
+                if not (el.dominates(head.bb, c.bb) and el.dominates(c.bb, fin.bb)):
                     continue
-                v = noref(el.val(c.args[0]))
-                if v.kind in ('arg', 'call', 'local') and el.dominates(c.bb, fin.bb):
-                    fed_vals.append(v)
+                if origins(el, c.args[1]) != hsrc:
+                    continue     # feeds some other hasher
+                org = origins(el, c.args[0])
+                if org and all(isinstance(o, tuple) and o[0] == 'proj' and o[1] is head for o in org):
+                    for o in org:
+                        fed_projs.append(o[2])
             fed = set()
             if comps == [()]:
-                if fed_vals:
+                if fed_projs:
                     fed.add(())
             else:
                 # key and value are the two components (.0 / .1) of one and the same item
-                for a in fed_vals:
-                    for b_ in fed_vals:
-                        if (a.kind, a.key) == (b_.kind, b_.key) and a.fields()[:-1] == b_.fields()[:-1] and \
-                                a.fields()[-1:] == ('.0',) and b_.fields()[-1:] == ('.1',):
+                for a_ in fed_projs:
+                    for b_2 in fed_projs:
+                        if a_[:-1] == b_2[:-1] and a_[-1:] == ('0',) and b_2[-1:] == ('1',):
                             fed.add(('.0',))
                             fed.add(('.1',))
             missing = [c for c in comps if c not in fed]
-            ctx.check(not missing, rule, 'element-components', el,
+            ctx.check(not missing, rule, 'element-components', body0,
                       good='every component of an element is fed to its hasher before finish()',
                       bad='%s::hash: the per-element hashing does not feed component(s) %s of the element: '
                           'entries that differ only there (e.g. same key, different value) hash equally' %
                           (tyname, ['value' if m == ('.1',) else 'key' if m == ('.0',) else 'element' for m in missing]))
-            # the element hash is that hasher's finish(): returned by the closure or pushed to the buffer
-            ok = (fin.dest['l'] == 0 and not fin.dest['p']) or any(
-                noref(el.val(c.args[1])) == V('call', fin.bb) for c in el.calls_to('Vec::push'))
-            ctx.check(ok, rule, 'element-hash-is-finish', el, good='the buffered value is inner_hasher.finish()',
+            # the element hash is that hasher's finish(): it is what goes into the buffer
+            ok = False
+            for c in el.calls:
+                if c.is_('desugar::yield', 'Vec::push', 'Extend::extend_one') and len(c.args) >= 2:
+                    if origins(el, c.args[1]) == {fin}:
+                        ok = True
+            ctx.check(ok, rule, 'element-hash-is-finish', body0, good='the buffered value is inner_hasher.finish()',
                       bad='%s::hash: the value buffered per element is not inner_hasher.finish()' % tyname)
 
 
